@@ -46,6 +46,9 @@ def run_stream(spec, tier, seed, procs):
         agg["mismatching_lines"] += r["mismatching_lines"]; agg["bad"] += r["bad"]; agg["hashes"] |= set(r["hashes"])
         for k, v in r["ops"].items(): agg["ops"][k] = agg["ops"].get(k, 0) + v
         for k, v in r["errors"].items(): agg["errors"][k] = agg["errors"].get(k, 0) + v
+        for k, v in (r.get("distribution") or {}).items():
+            d_ = agg.setdefault("distribution", {})
+            d_[k] = max(d_.get(k, 0), v) if k.endswith(("_max", "_lines")) else d_.get(k, 0) + v
         if agg["sample"] is None: agg["sample"] = r["sample"]
     agg["distinct"] = len(agg["hashes"]); del agg["hashes"]
     return agg
